@@ -5,7 +5,7 @@ PROPS = {
         "technique": "Verus contracts on hazmat helpers and subtree functions against the tree-level spec",
         "level_text": "unbounded deductive proof (Verus/z3) over the real hazmat functions",
         "level_note": "trusted: Verus+z3, extraction rules, std intrinsics (next_power_of_two, trailing_zeros), SIMD kernels assumed (C05)",
-        "units": {"quick": [v("hasher"), v("tree"), v("xof"), v("spec_lemmas"), k("left_subtree_len"), k("max_subtree_len")], "thorough": [v("hasher", "C")]},
+        "units": {"quick": [v("hasher"), v("tree"), v("xof"), v("spec_lemmas"), v("group_lemmas"), k("left_subtree_len"), k("max_subtree_len")], "thorough": [v("hasher", "C")]},
         "cone": [r"crate::hazmat::", r"crate::Hasher::", r"crate::compress_subtree", r"crate::parent_node_output",
                  r"crate::Output::", r"\(contract\)"],
         "explanation": "left_subtree_len / max_subtree_len: closed forms on the whole stated domain (Verus + complete Kani "
@@ -15,9 +15,16 @@ PROPS = {
                        "merge_subtrees_non_root/root/root_xof == parent CV / root hash / root stream. Composition "
                        "(lemma_decomp, lemma_decomp_root over an inductive decomposition datatype): every tree of splits at "
                        "left_subtree_len, leaves hashed by any hasher, reproduces sp_root_out(input).",
-        "uncovered": ["fixed power-of-two groups are covered only as recursive decompositions that split at left_subtree_len; "
-                      "the 'pairwise layer' driver used in the crate's own test (lemma_pairwise_tree exists) is not tied to "
-                      "an arbitrary group size by a lemma"],
+        "uncovered": ["fixed power-of-two groups are proved at the specification level (unit group_lemmas, spec/group_spec.rs): "
+                      "for every power of two g and every input cut into consecutive groups of g chunks (last one shorter), the "
+                      "group chaining values sp_subtree_cv(group i, t0 + g*i) -- what set_input_offset(1024*g*i) + update + "
+                      "finalize_non_root is proved to return -- satisfy lemma_grouped_tree (their tree is sp_subtree_cv of the "
+                      "input), lemma_grouped_covers (sp_covers, so lemma_pairwise_covers / lemma_covers_two apply) and "
+                      "lemma_grouped_root (pairwise merge_subtrees_non_root layers until two remain, then the parent node == "
+                      "sp_root_out(input), i.e. merge_subtrees_root / _root_xof). Not covered: the driver loop itself is the "
+                      "caller's code (the crate only has it in a test); it is modelled by the spec fn sp_pairwise_until_two, "
+                      "not extracted from Rust. Group sizes that are not a power of two are outside max_subtree_len's rule "
+                      "and are not claimed"],
         "assumptions": [SIMD_ASSUMPTION, EXTRACTION],
     },
 }
